@@ -32,12 +32,23 @@ Independent(e) ==
      UNION { IF ~s.ok THEN {"C18: independent parser rejects the serialised " \o e.kind \o " subframe: " \o s.why}
              ELSE (IF s.kind # e.kind THEN {"C18: serialised as a " \o s.kind \o " subframe"} ELSE {}) \cup
                   (IF s.end # NBits(e) THEN {"C08: independent parser consumes " \o ToString(s.end) \o " bits, " \o ToString(NBits(e)) \o " were written"} ELSE {}) \cup
-                  (IF SubSize(s, e.n) # Count(e) THEN {"C08: structural size " \o ToString(SubSize(s, e.n)) \o " differs from count_bits " \o ToString(Count(e))} ELSE {})
+                  (IF SubSize(s, e.n) # Count(e) THEN {"C08: structural size " \o ToString(SubSize(s, e.n)) \o " differs from count_bits " \o ToString(Count(e))} ELSE {}) \cup
+                  \* the content the independent parser reads is the content the component was built from
+                  (IF s.kind = "constant" /\ e.kind = "constant" /\ e.n >= 1 /\ s.samples[1] # e.x.dc
+                     THEN {"C18: serialised constant is " \o ToString(s.samples[1]) \o ", constructed from " \o ToString(e.x.dc)} ELSE {}) \cup
+                  (IF s.kind = "verbatim" /\ e.kind = "verbatim" /\ e.x.check /\ s.samples # e.x.samples
+                     THEN {"C18: serialised verbatim samples differ from the samples given"} ELSE {}) \cup
+                  (IF s.kind \in {"fixed", "lpc"} /\ s.kind = e.kind /\ s.warm # e.x.warm
+                     THEN {"C18: serialised warm-up samples differ from the samples given"} ELSE {}) \cup
+                  (IF s.kind = "lpc" /\ e.kind = "lpc" /\ (s.coefs # e.x.coefs \/ s.shift # e.x.shift \/ s.prec # e.x.prec)
+                     THEN {"C18: serialised predictor (precision " \o ToString(s.prec) \o ", shift " \o ToString(s.shift) \o ", coefficients "
+                           \o ToString(s.coefs) \o ") differs from the parameters given " \o ToString(e.x.coefs)} ELSE {})
              : s \in {ParseSubStruct(b, 0, e.n, e.bps)} }
   ELSE IF e.kind = "residual" THEN
      UNION { IF ~r.ok THEN {"C18: independent parser rejects the serialised residual"}
              ELSE (IF r.p # NBits(e) THEN {"C08: independent parser consumes " \o ToString(r.p) \o " bits of the residual, " \o ToString(NBits(e)) \o " were written"} ELSE {}) \cup
-                  (IF ResidualSize(r, e.n, e.ord) # Count(e) THEN {"C08: structural size of the residual differs from count_bits"} ELSE {})
+                  (IF ResidualSize(r, e.n, e.ord) # Count(e) THEN {"C08: structural size of the residual differs from count_bits"} ELSE {}) \cup
+                  (IF e.x.check /\ r.out # e.x.vals THEN {"C18: serialised residual values differ from the quotients/remainders given"} ELSE {})
              : r \in {Residual(b, 0, e.n, e.ord)} }
   ELSE IF e.kind = "header" THEN
      UNION { IF ~h.ok THEN {"C18: independent parser rejects the serialised frame header: " \o h.why}
